@@ -1,7 +1,11 @@
 """C14 — shared / non-shared session policy.
 
 Proof: lean/VncModel/Props/C14.lean (exact characterisation of ClientInit's effect in the three
-cases + invariant `never_shared_at_most_one` over all histories).
+cases + invariant `never_shared_at_most_one` over all histories; `processArgs_segments`: functional
+specification of the rfbProcessArguments loop for every well-formed command line and every set of
+extensions, option table regenerated from cargs.c (T0); `origin_of_flag` /
+`never_shared_at_most_one_inbound`: the reverse flag is a function of the arrival history, failed
+reverse connections leave no trace).
 Tie: correspondence run harness/c14.c (real rfbProcessClientInitMessage over socketpairs) vs
 Driver/C14.lean on generated event scripts, exact comparison of every client's open/closed/state
 after every event, plus a direct oracle (below) that only uses the property's words.
@@ -14,14 +18,88 @@ EXTRA_TARGETS = ["drv_c14"]
 MAXID = 7
 
 
+FLAGS = ("-alwaysshared", "-nevershared", "-dontdisconnect")
+# options of the library that take a value, harmless for the sessions of this harness
+VALUE_OPTS = ("-rfbwait", "-deferupdate", "-deferptrupdate", "-desktop", "-progressive", "-rfbport",
+              "-httpport", "-httpdir", "-sslkeyfile", "-sslcertfile")
+HELP_OPTS = ("-help", "-h", "--help")
+
+
+def gen_args(rng, cfg):
+    """a command line as an application would pass it on: the sharing switches wanted by `cfg` in
+    random positions among library options with values, the harness extension's options
+    (-chan N, -xflag, -tri A B), tokens nobody knows; sometimes a switch stands where it is NOT an
+    option (as the value of another option, as a parameter of an extension option), sometimes the
+    line ends in an option that lacks its value, rarely it contains -help"""
+    segs = [[f] for f, on in zip(FLAGS, cfg) if on]
+    for _ in range(rng.randint(0, 4)):
+        r = rng.random()
+        if r < 0.30:
+            o = rng.choice(VALUE_OPTS)
+            v = rng.choice(FLAGS) if rng.random() < 0.3 else rng.choice(["0", "5", "20000", "name", "/nonexistent"])
+            if o in ("-rfbwait",):
+                v = "20000"          # keep the harness's blocking reads patient
+            segs.append([o, v])
+        elif r < 0.45:
+            segs.append(["-chan", rng.choice(["7", "x"] + list(FLAGS))])
+        elif r < 0.55:
+            segs.append(["-xflag"])
+        elif r < 0.65:
+            segs.append(["-tri", rng.choice(["a"] + list(FLAGS)), rng.choice(["b"] + list(FLAGS))])
+        elif r < 0.80:
+            segs.append([rng.choice(["foo", "-unknown", "-chanx", "-", "--", "-Nevershared", "-permitfiletransfer", "-enablehttpproxy"])])
+        elif r < 0.88:
+            segs.append([rng.choice(FLAGS)])      # repeated / extra switches
+        elif r < 0.93:
+            segs.append([rng.choice(HELP_OPTS)])
+    rng.shuffle(segs)
+    toks = [t for s in segs for t in s]
+    r = rng.random()
+    if r < 0.08:
+        toks.append(rng.choice(VALUE_OPTS))       # value missing: the library stops there
+    elif r < 0.14:
+        toks.append(rng.choice(["-chan", "-tri", "-tri x"]))   # extension option without its parameters
+    return toks[:15]
+
+
+def py_args(cfg, toks):
+    """independent reading of rfbProcessArguments' documented behaviour -> (cfg, left, ok)"""
+    cfg = list(cfg)
+    left, i = [], 0
+    known_value = set(VALUE_OPTS) | {"-rfbportv6", "-rfbauth", "-rfbversion", "-passwd", "-httpportv6", "-listen", "-listenv6"}
+    while i < len(toks):
+        t = toks[i]
+        if t in HELP_OPTS:
+            return tuple(cfg), left + toks[i:], False
+        if t in known_value:
+            if i + 1 >= len(toks):
+                return tuple(cfg), left + toks[i:], False
+            i += 2
+        elif t in FLAGS:
+            cfg[FLAGS.index(t)] = 1
+            i += 1
+        elif t in ("-permitfiletransfer", "-enablehttpproxy"):
+            i += 1
+        elif t == "-chan" and i + 1 < len(toks):
+            i += 2
+        elif t == "-xflag":
+            i += 1
+        elif t == "-tri" and i + 2 < len(toks):
+            i += 3
+        else:
+            left.append(t)
+            i += 1
+    return tuple(cfg), left, True
+
+
 def gen_script(rng, nops):
     """structured, mostly-valid event histories; ~8% deliberately invalid ops (bad-op stream)"""
     cfg = (rng.randint(0, 1), rng.randint(0, 1), rng.randint(0, 1))
-    if rng.random() < 0.4:
+    if rng.random() < 0.5:
         # configuration through the command-line path (rfbProcessArguments)
-        fl = [f for f, on in zip(("-alwaysshared", "-nevershared", "-dontdisconnect"), cfg) if on]
-        rng.shuffle(fl)
-        lines = ["args " + " ".join(fl)] if fl else ["args"]
+        lines = [("args " + " ".join(gen_args(rng, cfg))).strip()]
+        if rng.random() < 0.2:
+            lines.append(("args " + " ".join(gen_args(rng, (0, 0, 0)))).strip())
     else:
         lines = ["cfg %d %d %d" % cfg]
     nxt, pre, ready, normal, pre889 = 0, [], [], [], []     # generator's own bookkeeping (not an oracle)
@@ -32,11 +110,20 @@ def gen_script(rng, nops):
                                      "hs %d" % rng.randint(0, MAXID),
                                      "close %d" % rng.randint(0, MAXID)]))
         elif r < 0.30 and nxt <= MAXID:
-            rev = 1 if rng.random() < 0.2 else 0
-            mac = rng.random() < 0.15
-            lines.append("%s %d %d" % ("conn889" if mac else "conn", nxt, rev))
-            (pre889 if mac else pre).append(nxt)
-            nxt += 1
+            q = rng.random()
+            if q < 0.22:
+                # the application calls rfbReverseConnection: it fails (refused / hook refuses) or succeeds
+                mode = rng.choice([0, 2, 1, 1])
+                lines.append("rconn %d %d" % (nxt, mode))
+                if mode == 1:
+                    pre.append(nxt)
+                    nxt += 1
+            else:
+                rev = 1 if q < 0.30 else 0
+                mac = rng.random() < 0.15
+                lines.append("%s %d %d" % ("conn889" if mac else "conn", nxt, rev))
+                (pre889 if mac else pre).append(nxt)
+                nxt += 1
         elif r < 0.36 and pre889:
             i = pre889.pop(rng.randrange(len(pre889)))
             lines.append("hs %d" % i)      # implicit ClientInit (shared) happens here
@@ -63,11 +150,14 @@ def gen_script(rng, nops):
 
 
 def parse_state(line):
-    d = {}
+    """-> ({id: (open|closed, hs|normal)} or {id: ('gone',)}, {id: 'r'|'i'})"""
+    d, fl = {}, {}
     for t in line.split():
         p = t.split(":")
-        d[int(p[0])] = tuple(p[1:])
-    return d
+        d[int(p[0])] = tuple(p[1:3])
+        if len(p) > 3:
+            fl[int(p[0])] = p[3]
+    return d, fl
 
 
 def oracle(script, impl):
@@ -82,7 +172,15 @@ def oracle(script, impl):
         if t[0] == "cfg":
             cfg = tuple(int(x) for x in t[1:4])
         elif t[0] == "args":
-            cfg = tuple(int(c or (f in t[1:])) for c, f in zip(cfg, ("-alwaysshared", "-nevershared", "-dontdisconnect")))
+            cfg, left, okk = py_args(cfg, t[1:])
+            want = " ".join(["ok" if okk else "fail"] + left)
+            if ob != want:
+                return "rfbProcessArguments %r: returned/left %r, expected %r" % (t[1:], ob, want)
+        elif t[0] == "rconn":
+            if ob == "ok":
+                rev[int(t[1])] = 1
+            elif (ob == "rc-failed") != (t[2] in ("0", "2")):
+                return "reverse connection %r: %r" % (op, ob)
         elif t[0] in ("conn", "conn889") and ob == "ok":
             rev[int(t[1])] = int(t[2])
             if t[0] == "conn889":
@@ -92,7 +190,12 @@ def oracle(script, impl):
         elif t[0] == "init":
             last_init = (int(t[1]), int(t[2])) if ob == "ok" else None
         elif t[0] == "state":
-            cur = parse_state(ob)
+            cur, flags = parse_state(ob)
+            for i, fch in flags.items():
+                if (fch == "r") != bool(rev.get(i)):
+                    return "client %d is flagged %r but it %s" % (
+                        i, "reverse" if fch == "r" else "inbound",
+                        "came in through a reverse connection" if rev.get(i) else "is an inbound connection")
             served = [i for i, v in cur.items() if v == ("open", "normal") and not rev.get(i)]
             if cfg[1] and len(served) > 1:
                 return "never-shared screen serves %r simultaneously" % served
@@ -159,13 +262,15 @@ def run(ctx):
         "rule": "random event histories (connect/handshake/ClientInit/close/reap) over <=8 clients, all 8 flag combinations; non-trivial = distinct script with >=2 accepted ClientInit messages",
         "samples": samples, "distribution": dist, "failures": fails,
         "partial": [],
-        "assumptions": ["the harness marks reverse connections the way rfbReverseConnection does (flag set after rfbNewClient)",
+        "assumptions": ["`conn id 1` marks a record the way rfbReverseConnection does (flag set after rfbNewClient); `rconn` calls the real rfbReverseConnection (loopback TCP viewer, refused connection, refusing newClientHook)",
+                        "registered extensions claim at most as many arguments as remain (processArgument contract)",
+                        "-listen / -passwd / -rfbauth / -rfbversion are in the model's option table (regenerated from cargs.c) but not generated: they change the handshake or need name resolution",
                         "single-threaded application-driven event loop"],
     }
 
 META = {
     "technique": "Lean 4 theorems (exact characterisation of ClientInit's policy effect; inductive invariant over all event histories) + correspondence run of the model against the real rfbProcessClientInitMessage",
     "level_text": "Proof: the policy decision is modelled in Lean (VncModel/Policy/Model.lean); Props/C14.lean proves the three cases of the property for every client list/configuration and `never_shared_at_most_one` by induction over all histories. The model is tied to the code on every run by an exact differential run (real server over socketpairs vs compiled Lean driver) plus a model-independent oracle.",
-    "level_note": "Trusted: Lean kernel (axioms propext/Classical.choice/Quot.sound only), the harness/driver/generator (testing, distribution in evidence). Modelled: client list, sock open/closed, state==RFB_NORMAL, reverseConnection, the three screen flags. Not modelled: threads (C13), how sockets are actually closed (C12).",
+    "level_note": "Trusted: Lean kernel (axioms propext/Classical.choice/Quot.sound only), the harness/driver/generator (testing, distribution in evidence), tools/consts/c14.py (option-table extractor; fails closed). Modelled: client list, sock open/closed, state==RFB_NORMAL, reverseConnection (as history: inbound / successful / failed reverse connection), the three screen flags, the whole argument loop of rfbProcessArguments (token consumption of every option, extension fallback, purge). Not modelled: threads (C13), how sockets are actually closed (C12).",
     "design_ref": "DESIGN.md section 7, C14",
 }
